@@ -1267,6 +1267,8 @@ class Exec:
                 return None
             if isinstance(v, TupV):
                 return list(v.items)
+            if isinstance(v, tuple) and v and v[0] == "sset":
+                return list(v[1])  # a set with statically known members (iteration order is irrelevant to any/all/for-effects)
         return None
 
     def unroll(self, node, seq, i, st, alias=None):
